@@ -14,6 +14,7 @@ import (
 	"strings"
 
 	"google.golang.org/protobuf/internal/encoding/defval"
+	"google.golang.org/protobuf/internal/flags"
 	"google.golang.org/protobuf/proto"
 	"google.golang.org/protobuf/reflect/protodesc"
 	"google.golang.org/protobuf/reflect/protoreflect"
@@ -107,6 +108,11 @@ func checkLinkedC34(c *C, fd protoreflect.FileDescriptor) {
 		}
 	}
 	fd2, err, pn := newFile(p1, protoregistry.GlobalFiles, unresolvable)
+	if unresolvable && err != nil && pn == nil {
+		// legacy.proto: its golang/protobuf-v1 era imports are linked under other paths and cannot be imported by name
+		c.Hist("A:import-not-linked(skipped)")
+		return
+	}
 	if !chk(c, err == nil && pn == nil, "NewFile(ToFileDescriptorProto(fd)) fails for linked file "+fd.Path()+": "+errClass(err, pn), in, "") {
 		return
 	}
@@ -118,7 +124,7 @@ func checkLinkedC34(c *C, fd protoreflect.FileDescriptor) {
 	}
 	s1, s2 := snapshotFile(fd), snapshotFile(fd2)
 	if s1 != s2 {
-		chk(c, false, "accessor snapshot of NewFile(ToProto(fd)) differs from fd ("+fd.Path()+"): "+firstDiff(s1, s2), in, classifySnapshots(p1, s1, s2))
+		reportSnapshotDiff(c, "accessor snapshot of NewFile(ToProto(fd)) differs from fd ("+fd.Path()+")", p1, s1, s2, in)
 	}
 	c.Hist(fmt.Sprintf("A:snapshot-lines<=10^%d", len(fmt.Sprint(strings.Count(s1, "\n")))))
 }
@@ -286,6 +292,16 @@ func checkProtoC34(c *C, p *descriptorpb.FileDescriptorProto, deps []string, reg
 	if !proto.Equal(p1, want) {
 		chk(c, false, "ToProto(NewFile(p)) != normalize(p): "+protoDiff(want, p1), in, classifyProtoDiff(p, protoDiff(want, p1)))
 	}
+	// the model's toProto∘newFile on the modelled accessors
+	if a != nil && c.HasModel() && a.inModelVocabulary() && len(deps) == 0 {
+		ans := c.Ask("%s", a.newfileRequest(false, flags.ProtoLegacy, true))
+		if ans == "error unsupported" {
+			c.Hist("model:unsupported")
+		} else {
+			c.Compare("toProto(newFile(p)) on the modelled accessors", in, "ok "+fileFromProto(p1).fileTokens(), ans)
+			c.Hist("model:toproto-compared")
+		}
+	}
 	fd2, err, pn := newFile(p1, r, false)
 	if !chk(c, err == nil && pn == nil, "NewFile(ToProto(NewFile(p))) fails: "+errClass(err, pn), in, "") {
 		return
@@ -294,7 +310,7 @@ func checkProtoC34(c *C, p *descriptorpb.FileDescriptorProto, deps []string, reg
 	chk(c, proto.Equal(p1, p2), "second round trip is not the identity: "+protoDiff(p1, p2), in, "")
 	s1, s2 := snapshotFile(fd), snapshotFile(fd2)
 	if s1 != s2 {
-		chk(c, false, "accessor snapshot of NewFile(ToProto(d)) differs from d: "+firstDiff(s1, s2), in, classifySnapshots(p, s1, s2))
+		reportSnapshotDiff(c, "accessor snapshot of NewFile(ToProto(d)) differs from d", p, s1, s2, in)
 	}
 	if a != nil && c.Rand.Intn(3) == 0 {
 		c.Sample(map[string]any{"path": p.GetName(), "syntax": p.GetSyntax(), "edition": p.GetEdition().String(), "messages": len(p.MessageType), "bytes": len(in.FDP) / 2})
